@@ -308,6 +308,17 @@ def gen_script(rnd, it, flags, n_ops):
         funcs[m["name"]] = {"ops": ops, "panic": fresh() if rnd.random() < 0.15 else None,
                             "results": [fresh() if rnd.random() < 0.85 else 0 for _ in m["results"]]}
     script = [op(0) for _ in range(n_ops)]
+    # epilogue: a snapshot that must survive a reset followed by further calls (per method, when resets exist)
+    if flags["resets"]:
+        for m in ms[:2]:
+            def call():
+                return ["call", m["name"]] + [fresh() for _ in m["params"]]
+            script += [call(), call(), ["calls", m["name"]], rnd.choice([["reset", m["name"]], ["resetall"]]),
+                       call(), ["calls", m["name"]], call(), call(), call()]
+    else:
+        m = ms[0]
+        script += [["call", m["name"]] + [fresh() for _ in m["params"]], ["calls", m["name"]]] + \
+                  [["call", m["name"]] + [fresh() for _ in m["params"]] for _ in range(5)] + [["calls", m["name"]]]
     return funcs, script
 
 
